@@ -10,7 +10,7 @@ import json
 import os
 import random
 
-from .. import common, graph
+from .. import common, graph, ws_e2e
 from ..common import Infra, log
 
 CFG = """SPECIFICATION Spec
@@ -176,6 +176,8 @@ def run(res, scratch, *, tier, seed, replay):
     if replay:
         rp = json.load(open(replay))
         sc = rp["script"]
+        if rp.get("leg") == "e2e":
+            return ws_e2e.run(res, scratch, "C05", tier, seed, only=sc)
         if rp.get("leg") == "real":
             return run_real(res, scratch, ov, tier, seed, only=sc)
         scripts = [sc]
@@ -207,6 +209,8 @@ def run(res, scratch, *, tier, seed, replay):
     for s in all_scripts[:2]:
         res.sample({"script": s["id"], "steps": [x["t"] for x in s["steps"]], "panic": s["panic"]})
     run_real(res, scratch, ov, tier, seed)
+    # WebSocket callbacks of real servers: open / message / ping / close callbacks of one connection never overlap
+    ws_e2e.run(res, scratch, "C05", tier, seed)
 
 
 def run_real(res, scratch, ov, tier, seed, only=None):
